@@ -113,6 +113,8 @@ class TimerMonitor(netsim.Monitor):
         self.activity = {}    # endpoint -> (time of last new genuine packet processed or
         #                       ack-eliciting packet sent, independent PTO then)
         self.seen_dgrams = {"c": set(), "s": set()}
+        self.rx_time = {"c": {}, "s": {}}     # (packet type, pn) -> first delivery time
+        self.processed = {"c": None, "s": None}  # delivery time of the latest packet the endpoint ACKNOWLEDGED
 
     def before_api(self, w, ep, name):
         if name == "close" and ep.terminated is None and not _end_states(ep.conn):
@@ -122,6 +124,9 @@ class TimerMonitor(netsim.Monitor):
     def on_deliver(self, w, ep, d, addr):
         self.last_rx[ep.name] = w.now
         # a duplicate of a datagram already delivered is not activity
+        for r in d.recs or ():
+            if r.opened and r.pn is not None:
+                self.rx_time[ep.name].setdefault((r.type if r.type != "0rtt" else "1rtt", r.pn), w.now)
         fp = hash(d.data)
         if d.kind in ("genuine", "dup") and fp not in self.seen_dgrams[ep.name]:
             self.seen_dgrams[ep.name].add(fp)
@@ -140,6 +145,27 @@ class TimerMonitor(netsim.Monitor):
             self.activity[name] = (w.now, idle)
         if any(r.ack_eliciting for d, a in sent for r in d.recs if r.opened):
             self.activity[name] = (w.now, idle)
+        # what the endpoint acknowledges it has "received and processed successfully" (RFC 9000 10.1: that
+        # restarts the idle timer)
+        for d, a in sent:
+            for r in d.recs:
+                for f in (r.frames or ()) if r.opened else ():
+                    if f["t"] == "ACK":
+                        rt = self.rx_time[name]
+                        for lo, hi in f["ranges"]:
+                            for pn in range(max(lo, hi - 64), hi + 1):
+                                t = rt.get((r.type, pn))
+                                if t is not None and (self.processed[name] is None or t > self.processed[name]):
+                                    self.processed[name] = t
+        if n_term and name not in self.closing and self.processed[name] is not None:
+            ev = [e for e in new_events if type(e).__name__ == "ConnectionTerminated"][0]
+            if ev.reason_phrase == "Idle timeout" and w.now < self.processed[name] + w.cfg["idle"] - 1e-6:
+                raise Violation(
+                    {"monitor": "idle.terminated_early", "client_rebound": w.client_addr != netsim.C_ADDR},
+                    "%s: idle termination at %.6f although it acknowledged a packet delivered at %.6f and the "
+                    "negotiated idle period is %.3f s (no idle deadline before %.6f)"
+                    % (name, w.now - w.t0, self.processed[name] - w.t0, w.cfg["idle"],
+                       self.processed[name] + w.cfg["idle"] - w.t0))
         if n_term and name in self.activity and name not in self.closing:
             ev = [e for e in new_events if type(e).__name__ == "ConnectionTerminated"][0]
             t_act, idle_then = self.activity[name]
